@@ -23,8 +23,8 @@ root-queue array and (pointer-sized loads/stores only) anywhere else.  This modu
      whose next action is enabled in the model AND has the recorded outcome (was_empty, probe result, lock restart, every dq_state
      value written, pop of last / more, item identity).  The round is reproduced iff every action is consumed and the model ends
      idle with the recorded dq_state, an empty list and all items started in order.  C01_slanet_replay_reach: whatever the
-     scheduler is given, it only takes steps of SLane.  The need_override wakeup of a push onto a non-empty list, which SLane does
-     not model, is replayed by SLaneR.override_step and counted (steps_outside_SLane).
+     scheduler is given, it only takes steps of SLane (begin / gstep / ostep; ostep = the need_override continuation of a push
+     onto a non-empty list, found missing from the model by this check and added since; override_continuations counts them).
 
 correspond(ctx) returns the usual dict; lib/props/c01.py and c02.py add it as one more part of lanes.merge([...])."""
 import os
@@ -73,11 +73,11 @@ TAGS = {1: "push_was_empty", 2: "push_not_empty", 3: "push_not_empty_no_wakeup",
 # misses one is not a test of the protocol, so it is reported as a broken tie).  The remaining branches are listed in
 # distribution["branches_never_taken"] and in the notes when absent:
 #   5 probe_saw_empty, 7/16/30 failed compare-exchanges, 20/21/27/28 lagging enqueuer: reached in most runs (5..100 times), scheduler-dependent
-#   10/32/33 outcomes of the need_override wakeup (a branch of the code SLane does not model)
+#   10/32/33 outcomes of the need_override wakeup (SLane.ostep, PA_oprobe, PA_owake)
 #   12/14 need a second object in the same root queue; 17 is unreachable for pure dispatch_async (SLane: ENQUEUED is never set while
 #   the lane is locked, so a worker never finds it locked)
 REQUIRED = [1, 2, 3, 6, 8, 9, 11, 13, 15, 18, 19, 22, 23, 24, 25, 26, 29, 31]
-NOT_IN_SLANE = [4, 10, 32, 33]
+OVERRIDE_TAGS = [4, 10, 32, 33]
 
 
 def field_numbers():
@@ -493,7 +493,7 @@ def coq_conform(name, jobs, chunk_events=12000, timeout=900, workers=4, abstract
 
 def build_schedule(rd, lay, fn, threads):
     """threads: list of (tid, [NEv], abstraction rows).  Returns (queues {tid: [(kind,arg,sh,st,item,early,id)]}, order [tid],
-    number of actions outside SLane) or None when the exact chains cannot be built."""
+    number of SLane.ostep actions, i.e. need_override continuations) or None when the exact chains cannot be built."""
     lane, F_ST, F_TL = rd.lane, fn["dq_state"], fn["dq_items_tail"]
     allev = [e for (_, tr, _) in threads for e in tr]
     sw = [e for e in allev if e.obj == lane and e.fld == F_ST and ((e.kind == 5 and e.ok) or e.kind in (6, 7, 8, 9, 10))]
@@ -566,7 +566,7 @@ def build_schedule(rd, lay, fn, threads):
         q = []
         for a in lst:
             i, kind, arg, sh, stv, item, early = a[3]
-            if kind in (3, 4):
+            if kind == 6:
                 outside += 1
             q.append((kind, arg, sh, stv, item, early, ids.get((a[1], a[2]), -1)))
         queues[tid] = q
@@ -680,8 +680,8 @@ def correspond(ctx, tag="c01_slane"):
                          "detail": {"run": m[0], "round": m[1], "thread": m[2], "self": job[0], "rejected_at": idx, "ended_idle": idle,
                                     "events": len(tr), "around": [e.brief(names) for e in tr[lo:lo + 16]]}})
     # the whole round as a run of the global model
-    rp = {"rounds_replayed_as_SLane_runs": 0, "rounds_replayed_with_steps_outside_SLane": 0, "steps_outside_SLane": 0,
-          "model_actions_replayed": 0, "rounds_not_replayed_trace_rejected": 0}
+    rp = {"rounds_replayed_as_SLane_runs": 0, "override_continuations_replayed": 0, "model_actions_replayed": 0,
+          "rounds_not_replayed_trace_rejected": 0}
     todo, tkeys = [], []
     for key, ths in sorted(accepted.items()):
         rd, lay = rinfo[key]
@@ -700,8 +700,8 @@ def correspond(ctx, tag="c01_slane"):
         good = (left == 0 and stv == rd.st1 and rootq == 0 and llen == 0 and nextid == rd.nitems and idle == 1 and
                 nstarted == rd.nitems and fifo == 1)
         if good:
-            rp["rounds_replayed_as_SLane_runs" if outside == 0 else "rounds_replayed_with_steps_outside_SLane"] += 1
-            rp["steps_outside_SLane"] += outside
+            rp["rounds_replayed_as_SLane_runs"] += 1
+            rp["override_continuations_replayed"] += outside
             rp["model_actions_replayed"] += nact
         else:
             mism.append({"what": "a recorded round is not reproduced as a run of the global model SLane (SLaneR.sched: every thread's "
@@ -709,7 +709,7 @@ def correspond(ctx, tag="c01_slane"):
                          "detail": {"run": key[0], "round": key[1], "actions": nact, "executed": done, "left": left,
                                     "stuck_thread": stuck, "model_dq_state": stv, "recorded_final_dq_state": rd.st1, "rootq": rootq,
                                     "list_length": llen, "nextid": nextid, "items": rd.nitems, "all_idle": idle,
-                                    "started": nstarted, "fifo": fifo, "steps_outside_SLane": outside}})
+                                    "started": nstarted, "fifo": fifo, "override_continuations": outside}})
     never = [TAGS[t] for t in REQUIRED if not dist.get(TAGS[t])]
     for b in never:
         mism.append({"what": "branch of the serial-lane automaton never exercised by the stress runs", "detail": b})
@@ -717,9 +717,8 @@ def correspond(ctx, tag="c01_slane"):
     absent = [TAGS[t] for t in sorted(TAGS) if not dist.get(TAGS[t])]
     if absent:
         notes.append("branches of SLaneT.tstep not taken in this run: " + ", ".join(absent))
-    outside = {TAGS[t]: dist.get(TAGS[t], 0) for t in NOT_IN_SLANE}
-    notes.append("steps of the library that Model/SLane.v does not have (accepted by SLaneT.tstep, see _dispatch_lane_push "
-                 "queue.c:5077-5088 + _dispatch_queue_need_override inline_internal.h:2272): %s" % outside)
+    notes.append("need_override continuation of a push onto a non-empty list (_dispatch_lane_push queue.c:5077-5088, SLane.ostep / "
+                 "PA_oprobe / PA_owake): %s" % {TAGS[t]: dist.get(TAGS[t], 0) for t in OVERRIDE_TAGS})
     for job in jobs[:2] + [j for j in jobs if any(e.kind == 10 for e in j[4])][:1]:
         names = {job[1]: "lane", job[2]: "root"}
         samples.append({"self": job[0], "trace": [e.brief(names) for e in job[4][:60]]})
